@@ -16,6 +16,11 @@ try:
     if r2.get("confirmed"):
         done(**r2)
     r["tried"] = r.get("tried", 0) + r2.get("tried", 0)
+    # a store whose operations are not all-or-nothing (leftovers of a failed import on the same object) un-pins hosts: C12's scenarios
+    r3 = tofu_bank.bank("C12", seed=int(p.get("seed", 0) or 0))
+    if r3.get("confirmed"):
+        done(**r3)
+    r["tried"] += r3.get("tried", 0)
 except ImportError:
     pass
 done(**r)
